@@ -201,6 +201,30 @@ func runCRDTSnapshot(c *core.Ctx) {
 					c.Check(!tainted, fmt.Sprintf("crdt.%s:snapshot-takes-received-state-only#%d", fn.Obj.Name(), n), sAtom.Pos(), "the snapshot is merged with the received state, not with the working value",
 						"what is merged into the snapshot is derived from res.value, the working copy that contains the writes of the section in flight: if that section aborts, Abort restores a snapshot that already contains its writes, and broadcasts of the 'stable' state leak them to peers")
 				}
+				// ... and it is the very state that is merged into the value: whatever the value absorbs while a section is
+				// writing, the snapshot absorbs too
+				mergeArg := func(x ast.Node, f *types.Var) types.Object {
+					rhs, isStore := fieldIsAssigned(info, x, f)
+					if !isStore || rhs == nil {
+						return nil
+					}
+					call, isCall := an.Unparen(rhs).(*ast.CallExpr)
+					if !isCall || len(call.Args) != 1 {
+						return nil
+					}
+					if sel, isSel := an.Unparen(call.Fun).(*ast.SelectorExpr); !isSel || sel.Sel.Name != "Merge" || an.SelectedField(info, sel.X) != f {
+						return nil
+					}
+					return an.ObjOf(info, an.ResolveLocal(info, b.body, call.Args[0]))
+				}
+				if va := mergeArg(w, a.value); va != nil {
+					for _, sAtom := range g.FindAtoms(func(x ast.Node) bool { _, ok := fieldIsAssigned(info, x, a.oldValue); return ok }) {
+						if sa := mergeArg(sAtom, a.oldValue); sa != nil {
+							c.Check(sa == va, fmt.Sprintf("crdt.%s:snapshot-merges-what-the-value-merges#%d", fn.Obj.Name(), n), sAtom.Pos(), "value and snapshot absorb the same received state",
+								"the state merged into the snapshot is not the state merged into the value: whatever only the value absorbed is discarded when the writing section aborts, although its sender was told it had been received")
+						}
+					}
+				}
 				c.Check(ok, key, w.Pos(), "the snapshot is updated alongside the value while a section is writing",
 					"state received from a peer is merged into value only: if it arrives while a local section is writing and that section aborts, Abort restores the old snapshot and the merged peer state is lost for good")
 			}
